@@ -29,6 +29,7 @@ import (
 
 	"github.com/projectcalico/calico/felix/bpf/arp"
 	"github.com/projectcalico/calico/felix/bpf/conntrack/cleanupv1"
+	"github.com/projectcalico/calico/felix/bpf/events"
 	conntrack "github.com/projectcalico/calico/felix/bpf/conntrack/v4"
 	"github.com/projectcalico/calico/felix/bpf/failsafes"
 	"github.com/projectcalico/calico/felix/bpf/ifstate"
@@ -586,6 +587,59 @@ func buildRows() {
 		add("6", "failsafe_key", "port", o, n, "exact", "failsafes.MakeKeyV6(port)")
 		o, n = diffRange(f60, failsafes.MakeKeyV6(0, 0, false, "102:304:506:708:90a:b0c:d0e:f10", 128).ToSlice(), "fs6 addr")
 		add("6", "failsafe_key", "addr", o, n, "exact", "failsafes.MakeKeyV6(ip)")
+	}
+	// ---- policy-verdict events: production parser of cali_tc_state (after the 8-byte event header) ----
+	{
+		const hdr = 8
+		size := 104 + 8*state.MaxRuleIDs
+		probe := func(v6 bool, get func(pv events.PolicyVerdict) string, what string) (int, int) {
+			mk := func() []byte {
+				b := make([]byte, size)
+				b[100] = state.MaxRuleIDs // rules_hit: makes the parser read all rule ids
+				return b
+			}
+			base := get(events.ParsePolicyVerdict(mk(), v6))
+			lo, hi := -1, -1
+			for i := 0; i < size; i++ {
+				b := mk()
+				b[i] ^= 0xff
+				if get(events.ParsePolicyVerdict(b, v6)) != base {
+					if lo < 0 {
+						lo = i
+					}
+					hi = i
+				}
+			}
+			if lo < 0 {
+				panic("ParsePolicyVerdict: " + what + " depends on no byte")
+			}
+			return lo + hdr, hi - lo + 1
+		}
+		for _, v6 := range []bool{false, true} {
+			ver := "4"
+			if v6 {
+				ver = "6"
+			}
+			for _, f := range []struct {
+				path string
+				get  func(pv events.PolicyVerdict) string
+			}{
+				{"ip_src", func(pv events.PolicyVerdict) string { return pv.SrcAddr.String() }},
+				{"pre_nat_ip_dst", func(pv events.PolicyVerdict) string { return pv.DstAddr.String() }},
+				{"post_nat_ip_dst", func(pv events.PolicyVerdict) string { return pv.PostNATDstAddr.String() }},
+				{"tun_ip", func(pv events.PolicyVerdict) string { return pv.NATTunSrcAddr.String() }},
+				{"pol_rc", func(pv events.PolicyVerdict) string { return fmt.Sprint(pv.PolicyRC) }},
+				{"sport", func(pv events.PolicyVerdict) string { return fmt.Sprint(pv.SrcPort) }},
+				{"pre_nat_dport", func(pv events.PolicyVerdict) string { return fmt.Sprint(pv.DstPort) }},
+				{"post_nat_dport", func(pv events.PolicyVerdict) string { return fmt.Sprint(pv.PostNATDstPort) }},
+				{"ip_proto", func(pv events.PolicyVerdict) string { return fmt.Sprint(pv.IPProto) }},
+				{"ip_size", func(pv events.PolicyVerdict) string { return fmt.Sprint(pv.IPSize) }},
+				{"rule_ids", func(pv events.PolicyVerdict) string { return fmt.Sprint(pv.RuleIDs) }},
+			} {
+				o, n := probe(v6, f.get, f.path)
+				add(ver, "cali_tc_state", f.path, o, n, "exact", "events.ParsePolicyVerdict -> "+f.path)
+			}
+		}
 	}
 	// ---- per-packet state: Go mirror struct (reflect offsets) ------------------------------------
 	{
